@@ -623,6 +623,10 @@ class Trace:
                         s2 = snapshots.get((epoch, lt, c))
                         if s2 is None or e not in s2:
                             continue
+                        ck = sorted(k for k in x["comps"] if k in EVERY_TICK)
+                        sk = sorted(k for k in s2[e] if k in EVERY_TICK)
+                        if ck != sk:
+                            self.add("C02", i, "client %d entity %d holds the every-tick components %r but the server entity had %r at its confirmed tick %d: its state is a mixture of two ticks" % (c, e, ck, sk, lt))
                         for k, v in x["comps"].items():
                             if k in EVERY_TICK and k in s2[e]:
                                 sv = s2[e][k]
